@@ -254,15 +254,6 @@ impl<const NB_PROOFS: usize> LightAggregator<NB_PROOFS> {
 
         srs.downsize_from_circuit(&default_aggregator_circuit);
 
-        let nb_coms_per_proof = {
-            let cs = inner_vk.cs();
-            cs.num_fixed_columns()
-                + cs.num_advice_columns()
-                + cs.num_instance_columns()
-                + cs.permutation().get_columns().len()
-                + 3 * cs.lookups().len()
-        };
-
         let aggregator_vk = keygen_vk(srs, &default_aggregator_circuit)?;
         let aggregator_pk = keygen_pk(aggregator_vk.clone(), &default_aggregator_circuit)?;
 
@@ -270,7 +261,10 @@ impl<const NB_PROOFS: usize> LightAggregator<NB_PROOFS> {
             inner_vk: inner_vk.clone(),
             aggregator_vk,
             aggregator_pk,
-            lagrange_commitments: srs.g_lagrange()[..(nb_coms_per_proof * NB_PROOFS)].to_vec(),
+            // The number of bases involved in the inner-product argument depends on
+            // the shape of the inner circuit (and is also read from the aggregated
+            // proof by the verifier), so all the Lagrange commitments are kept.
+            lagrange_commitments: srs.g_lagrange().to_vec(),
         })
     }
 
@@ -383,7 +377,9 @@ impl<const NB_PROOFS: usize> LightAggregator<NB_PROOFS> {
         // Create the IPA proof
         let mut scalars = acc_committed_instances.clone();
         let mut bases1 = [acc.rhs().bases(), fixed_bases.values().cloned().collect()].concat();
-        let mut bases2 = self.lagrange_commitments[..bases1.len()].to_vec();
+        let mut bases2 = (self.lagrange_commitments.get(..bases1.len()))
+            .ok_or(Error::InvalidInstances)?
+            .to_vec();
 
         let k = bases1.len().next_power_of_two();
         bases1.resize(k, C::identity());
@@ -462,7 +458,9 @@ impl<const NB_PROOFS: usize> LightAggregator<NB_PROOFS> {
         // We conclude by checking the IPA proof which guarantess the validity of
         // acc_rhs_evaluated.
         let mut bases1 = [acc_rhs_bases, fixed_bases.values().cloned().collect()].concat();
-        let mut bases2 = self.lagrange_commitments[..bases1.len()].to_vec();
+        let mut bases2 = (self.lagrange_commitments.get(..bases1.len()))
+            .ok_or(Error::InvalidInstances)?
+            .to_vec();
 
         let k = bases1.len().next_power_of_two();
         bases1.resize(k, C::identity());
